@@ -583,6 +583,7 @@ inline std::string mutate(Node &root, int kind, MutCtx &c)
     case M_GRAFT: {
         if (!c.others || c.others->empty()) return "";
         const Node &o = (*c.others)[r.below(uint32_t(c.others->size()))];
+        if (o.local.isEmpty()) return "";   // placeholder of a verbatim regress document
         // take the other document's root or one of its element children
         const Node *g = &o;
         std::vector<const Node *> ek; for (auto &k : o.kids) if (!k.isText) ek.push_back(&k);
@@ -595,6 +596,7 @@ inline std::string mutate(Node &root, int kind, MutCtx &c)
     case M_TRANSPLANT: {
         if (!c.others || c.others->empty()) return "";
         const Node &o = (*c.others)[r.below(uint32_t(c.others->size()))];
+        if (o.local.isEmpty()) return "";
         const Node *g = &o;
         std::vector<const Node *> ek; for (auto &k : o.kids) if (!k.isText) ek.push_back(&k);
         if (!ek.empty() && r.coin()) g = ek[r.below(uint32_t(ek.size()))];
@@ -707,6 +709,53 @@ inline std::string mutate(Node &root, int kind, MutCtx &c)
         }
         return d.size() > 6 ? d + "]" : "";
     }
+    }
+    return "";
+}
+
+// ------------------------------------------------------------------------------------------------ systematic single-point sweep
+// Every single-point edit of a document, enumerated deterministically (no RNG): delete / duplicate each non-root element, remove /
+// empty each attribute, remove each text, move each element out of its namespace.
+enum SweepType { SW_DEL_ELEM, SW_DUP_ELEM, SW_ATTR_REMOVE, SW_ATTR_EMPTY, SW_TEXT_REMOVE, SW_NS_NONE, SW_NS_OTHER, SW_TYPES };
+struct SweepOp { int type; std::vector<int> path; int idx; };
+inline const char *sweepName(int t)
+{
+    static const char *n[] = { "sweep:del-element", "sweep:dup-element", "sweep:attr-remove", "sweep:attr-empty", "sweep:text-remove", "sweep:ns-none", "sweep:ns-other" };
+    return t >= 0 && t < SW_TYPES ? n[t] : "?";
+}
+inline std::vector<SweepOp> enumerateSweep(Node &root)
+{
+    std::vector<SweepOp> ops;
+    std::vector<std::vector<int>> elems; std::vector<int> cur;
+    collectElems(root, cur, elems);
+    for (auto &p : elems) {
+        Node *n = resolve(root, p);
+        if (!p.empty()) { ops.push_back({ SW_DEL_ELEM, p, 0 }); ops.push_back({ SW_DUP_ELEM, p, 0 }); ops.push_back({ SW_NS_NONE, p, 0 }); ops.push_back({ SW_NS_OTHER, p, 0 }); }
+        for (size_t a = 0; a < n->attrs.size(); a++) { ops.push_back({ SW_ATTR_REMOVE, p, int(a) }); ops.push_back({ SW_ATTR_EMPTY, p, int(a) }); }
+        for (size_t k = 0; k < n->kids.size(); k++) if (n->kids[k].isText) ops.push_back({ SW_TEXT_REMOVE, p, int(k) });
+    }
+    return ops;
+}
+inline std::string applySweep(Node &root, const SweepOp &op)
+{
+    Node *n = resolve(root, op.path);
+    if (!n) return "";
+    std::string d = std::string(sweepName(op.type)) + "@" + pathStr(op.path);
+    switch (op.type) {
+    case SW_DEL_ELEM: case SW_DUP_ELEM: {
+        std::vector<int> pp(op.path.begin(), op.path.end() - 1);
+        Node *par = resolve(root, pp);
+        int i = op.path.back();
+        d += "<" + par->kids[i].local.toStdString() + ">";
+        if (op.type == SW_DEL_ELEM) par->kids.erase(par->kids.begin() + i);
+        else { Node c = par->kids[i]; par->kids.insert(par->kids.begin() + i, c); }
+        return d;
+    }
+    case SW_ATTR_REMOVE: d += ":@" + n->attrs[op.idx].local.toStdString(); n->attrs.erase(n->attrs.begin() + op.idx); return d;
+    case SW_ATTR_EMPTY: d += ":@" + n->attrs[op.idx].local.toStdString(); if (n->attrs[op.idx].value.isEmpty()) return ""; n->attrs[op.idx].value.clear(); return d;
+    case SW_TEXT_REMOVE: n->kids.erase(n->kids.begin() + op.idx); return d;
+    case SW_NS_NONE: if (n->ns.isEmpty()) return ""; n->ns.clear(); n->prefix.clear(); return d;
+    case SW_NS_OTHER: n->ns = QStringLiteral("urn:verif:other"); n->prefix.clear(); return d;
     }
     return "";
 }
